@@ -611,9 +611,44 @@ theorem sendQueryBlocks_c {go : Call → St → St × Ret} (hgo : GoC tr ns go) 
     rename_i srv? s1 hch
     obtain ⟨hc1, ho1, hs1⟩ : cproj s1 = cproj s ∧ s1.outOfFuel = s.outOfFuel ∧ s1.servers = s.servers := by
       have := cproj_sqChoose reqSrv s; rw [hch] at this; exact this
-    have h1 : CInv tr ns (some key) none s1 := CInv.congr (s := s) (by
-      have := congrArg CP.tries hc1; sorry) hc1 ho1 h
-    sorry
+    have h1 : CInv tr ns (some key) none s1 := CInv.lift h ho1 (fun hok => by rw [hc1]; exact hok)
+    split
+    · exact hgo.inv (.endQuery none key .noserver none) s1 h1.dropW
+    · rename_i srv
+      have hsrv : srv ∈ s1.servers := by rw [hs1]; exact sqChoose_mem reqSrv s srv s1 hch
+      extract_lets s2 probeDowned existing
+      have h2 : CInv tr ns (some key) none s2 := CInv.congr (s := s1) rfl rfl rfl h1
+      split
+      rename_i connRes s3 hop
+      have h3 : CInv tr ns (some key) none s3 := by
+        have := sqOpen_cg s2 q srv existing h2; rw [hop] at this; exact this
+      have hq3 : q ∈ s3.qs ∧ q.key = key := by
+        have e3 : s3.qs = s2.qs := by have := sqOpen_qs s2 q srv existing; rw [hop] at this; exact this
+        have e1 : s1.qs = s.qs := congrArg CP.qs hc1
+        refine ⟨?_, hqm.2⟩
+        rw [e3]; show q ∈ s1.qs; rw [e1]; exact hqm.1
+      split
+      · rename_i st
+        exact hgo.inv (.requeue key st true none false) _ (CInv.incFailures h3.dropW)
+      · rename_i fd
+        extract_lets cookie newCk s4 q'
+        split
+        rename_i wst s5 hw
+        have hfd : s3.outOfFuel = true ∨ (q.usingTcp = true → TcpIfAny (cproj s3).kinds fd) := by
+          rcases h2 with h2 | hok2
+          · left
+            have := sqOpen_oof (go := fun _ s => (s, Status.ok)) (fun _ _ h => h) s2 q srv existing h2
+            rw [hop] at this; exact this
+          · right
+            intro hu
+            have := sqOpen_kind s2 q srv hsrv hok2 hu fd (by
+              show (sqOpen s2 q srv existing).1 = _; rw [hop])
+            have e : sqOpen s2 q srv (sqExisting s2 q srv) = (Except.ok fd, s3) := hop
+            rw [e] at this; exact this
+        have hsq4 : SQ tr ns key fd s4 := sqPrep_sq s3 q srv key fd h3 hq3 hfd
+        have hsq5 : SQ tr ns key fd s5 := by
+          have := sqWrite_sq hgo key fd s4 hsq4; rw [hw] at this; exact this
+        exact sqAfter_c hgo _ srv key fd _ wst s5 hsq5
 
 end
 end Cares.Chan
